@@ -88,3 +88,42 @@ func runSmoke2(c *vx.Ctx) {
 	p.Outcome("a")
 	p.Outcome("b")
 }
+
+func init() { register(vx.CheckSpec{ID: "smoke3", Shards: 1, Run: runSmoke3}) }
+
+func runSmoke3(c *vx.Ctx) {
+	core.VScaleParams(core.VR1)
+	p := c.Part("smoke")
+	p.States = 1
+	p.Outcome("a")
+	p.Outcome("b")
+	s, err := newScen(3, true, nil)
+	if err != nil {
+		c.HarnessError(err.Error())
+		return
+	}
+	t0 := time.Now()
+	if err := s.runWord(scenPrefixes["C14"]); err != nil {
+		c.HarnessError(err.Error())
+		return
+	}
+	fmt.Println("prefix took", time.Since(t0))
+	ut, _ := core.VScanUtxos(s.n.DB[2])
+	for _, u := range ut {
+		fmt.Println("  utxo", u)
+	}
+	for _, m := range scenMenu() {
+		tx := m.Make(s)
+		if tx == nil {
+			fmt.Println(m.Name, "n/a")
+			continue
+		}
+		fmt.Println(m.Name, s.n.AddTxs(tx))
+	}
+	blk, err := s.mine(core.VBuildOpts{Order: 2, Fill: true})
+	fmt.Println("mined", err, len(blk.Transactions()), len(blk.OutboundEtxs()))
+	for _, t := range blk.Transactions() {
+		fmt.Printf("   tx type %d hash %x\n", t.Type(), t.Hash().Bytes()[:4])
+	}
+	fmt.Println("commit:", s.n.VCheckCommitments(blk))
+}
